@@ -437,11 +437,12 @@ def a(x):
 r = a(v2)
 `},
 	{"f_defaults", zzNeedNone, `
-def mk():
+def mk(y):
+    z = v2
     def f(a=emit(v0), b=emit(v1)):
-        return a - b
+        return a - b + z + y
     return f
-f = mk()
+f = mk(1)
 r = [f(), f(1), f(b=2), f(3, 4), f(b=5, a=6)]
 `},
 	{"f_varkw", zzNeedNone, `
@@ -743,20 +744,30 @@ var zzC01BytesFold = zzC01Skel{"e_bytesfold", zzNeedNone, `
 bb = b"a" + b"b"
 `}
 
+// Control for the harness below: the same shape with string literals, which is well defined.
+var zzC01StringFold = zzC01Skel{"e_stringfold", zzNeedNone, `
+bb = "a" + "b"
+`}
+
 //verif:unwind 200
 func zzH01_diff_bytesfold() {
-	zzObserve("skeleton", zzC01BytesFold.name)
-	zzC01Diff(zzC01BytesFold.src, zzC01Options(zzC01BytesFold.need, 0), true)
+	sk := zzC01StringFold
+	isBytes := zzChoice("bytes", 2) == 1
+	if isBytes {
+		sk = zzC01BytesFold
+	}
+	zzObserve("skeleton", sk.name)
+	zzC01Diff(sk.src, zzC01Options(sk.need, 0), isBytes)
 	zzReach("end")
 }
 
 // ---- the harnesses: one per group so that they can be run (and parallelised) separately ----
 
 //verif:unwind 200
-func zzH01_diff_expr() { zzC01Run("expr", zzC01Expr, 4) }
+func zzH01_diff_expr() { zzC01Run("expr", zzC01Expr, 5) }
 
 //verif:unwind 200
-func zzH01_diff_ctrl() { zzC01Run("ctrl", zzC01Ctrl, 4) }
+func zzH01_diff_ctrl() { zzC01Run("ctrl", zzC01Ctrl, 5) }
 
 //verif:unwind 200
 func zzH01_diff_comp() { zzC01Run("comp", zzC01Comp, 4) }
